@@ -201,7 +201,7 @@ def run_case(case):
 
 
 def cases(tier, seed):
-    n = 6000 if tier == "quick" else 200000
+    n = 6000 if tier == "quick" else 1000000
     for i in range(n):
         yield {"kind": "mut", "seed": seed * 1000003 + i, "nmut": i % 4, "sample": i % 997 == 0}
     for t in EXTREME:
